@@ -103,10 +103,11 @@ EP_TS = ["2025-01-09T00:00:00Z", "2025-01-05T00:00:00Z", "2024-06-01T00:00:00Z"]
 EP_TEXT = ["alpha beta notes", "beta gamma story", "gamma only"]
 
 
-def make_index(owners=("A", "B", "world"), n=3, clusters=(None, None, None), importance=(0.5, 0.5, 0.5)):
+def make_index(owners=("A", "B", "world"), n=3, clusters=(None, None, None), importance=(0.5, 0.5, 0.5), ts=None):
     idx = InMemoryIndex()
+    ts = ts or EP_TS
     for i in range(n):
-        ep = {"id": "e%d" % (i + 1), "owner": owners[i], "text": EP_TEXT[i], "ts": EP_TS[i], "vec_full": marker_vec(i),
+        ep = {"id": "e%d" % (i + 1), "owner": owners[i], "text": EP_TEXT[i], "ts": ts[i], "vec_full": marker_vec(i),
               "aux": {"importance": importance[i]}}
         if clusters[i]:
             ep["aux"]["cluster_id"] = clusters[i]
